@@ -68,6 +68,8 @@ def units(tier):
         us.append({"kind": "varint", "lo": lo, "hi": lo + step})
     us.append({"kind": "varint-extra"})
     us.append({"kind": "prefix-boundary"})
+    for enc in TEXT_ENCODINGS:
+        us.append({"kind": "text", "encoding": enc})
     from .. import scale
     for n in scale.sizes(tier):
         us.append({"kind": "scale", "sizes": [n]})
@@ -408,6 +410,8 @@ def run_unit(unit, tier):
         run_prefix_boundary(r)
     elif k == "scale":
         run_scale(unit["sizes"], r)
+    elif k == "text":
+        run_text(unit["encoding"], r)
     elif k == "wideints":
         run_wideints(r)
     elif k == "negative-lengths":
@@ -527,6 +531,93 @@ def run_varint(lo, hi, r):
                         r.violation("C03/reference-self-inconsistent", {"term": t, "op": "build", "value": v, "kw": {}}, "reference parse(build(v)) != v")
                 r.case(nontrivial=a[0] == "ok", outcome="varint", transitions=2, validated=2)
     r.sample({"varint_range": [lo, hi]})
+
+
+TEXT_ENCODINGS = ["ascii", "utf8", "utf_8", "u8", "utf16", "utf_16", "u16", "utf_16_be", "utf_16_le", "utf32", "utf_32", "u32", "utf_32_be", "utf_32_le"]
+# the text axis: characters at every encoded length and at the codecs' special cases (byte-order marks, surrogates, combining
+# marks, the last code points), and texts that cannot be encoded
+TEXTS = ["", "a", "ab", "\ufeff", "\ufeffab", "ab\ufeff", "\ufffe", "\xe9", "\xff", "\u0100", "a\u20acb", "\uffff", "\U00010000", "\U0001d11e", "\U0010ffff",
+         "e\u0301", "a\nb", " x ", "\x7f", "\x80", "\ud7ff", "\ue000", "A\U0001d11eB\xe9"]
+BAD_TEXTS = ["\ud800", "a\udc00", "\udfff\ud800", "\ud800\udc00"]
+# malformed or borderline byte sequences, per code unit size
+RAW_TEXT = {
+    1: [b"\xef\xbb\xbfa", b"\xef\xbb\xbf", b"\xef\xbb", b"\xed\xa0\x80", b"\xed\xb0\x80a", b"\xed\x9f\xbf", b"\xee\x80\x80", b"\xc0\x80", b"\xc1\xbf", b"\xc2\x80", b"\xdf\xbf",
+        b"\xe0\x80\x80", b"\xe0\xa0\x80", b"\xf0\x80\x80\x80", b"\xf0\x90\x80\x80", b"\xf4\x8f\xbf\xbf", b"\xf4\x90\x80\x80", b"\xf8\x88\x80\x80\x80", b"\xfe", b"\xff\xfe",
+        b"a\x80", b"\x80a", b"\xe2\x82", b"\xe2\x82\xac", b"\xef\xbf\xbe", b"\xef\xbf\xbf", b"\x7f\x80"],
+    2: [b"\xff\xfe", b"\xfe\xff", b"\xff\xfea\x00", b"\xfe\xff\x00a", b"\xff\xfe\xff\xfea\x00", b"\xfe\xff\xfe\xff\x00a", b"\x00\xd8", b"\xd8\x00", b"\x00\xd8\x00\xdc", b"\xd8\x00\xdc\x00",
+        b"\x00\xdc\x00\xd8", b"\x00\xd8a\x00", b"\xff\xdf", b"\xdf\xff", b"\xff\xff", b"\xfe\xff\xd8\x34\xdd\x1e", b"\x34\xd8\x1e\xdd", b"a\x00\xff\xfe", b"\xff\xd7", b"\x00\xe0", b"a"],
+    4: [b"\xff\xfe\x00\x00", b"\x00\x00\xfe\xff", b"\xff\xfe\x00\x00a\x00\x00\x00", b"\x00\x00\xfe\xff\x00\x00\x00a", b"\x00\xd8\x00\x00", b"\x00\x00\xd8\x00", b"\xff\xff\x10\x00", b"\x00\x10\xff\xff",
+        b"\x00\x00\x11\x00", b"\x00\x11\x00\x00", b"\xff\xff\xff\xff", b"\x1e\xd1\x01\x00", b"\x00\x01\xd1\x1e", b"a\x00\x00", b"\xff\xfe\x00\x00\xff\xfe\x00\x00"],
+}
+
+
+def text_space(enc):
+    """-> (terms, frame(term, raw) -> bytes or None, value_for(term, text), raw byte sequences) for one encoding"""
+    unit = {"ascii": 1, "utf8": 1, "utf_8": 1, "u8": 1}.get(enc, 2 if "16" in enc else 4)
+    terms = [["GreedyString", enc], ["CString", enc], ["PascalString", G.BYTE, enc], ["PascalString", ["VarInt"], enc], ["PaddedString", 24, enc], ["PaddedString", 4, enc],
+             ["Struct", [["s", ["CString", enc]], ["t", G.BYTE]]], ["Array", 2, ["PascalString", G.BYTE, enc]], ["FixedSized", 16, ["GreedyString", enc]],
+             ["NullTerminated", ["GreedyString", enc], bytes(unit), False, True, True], ["Prefixed", G.BYTE, ["GreedyString", enc], False]]
+    def frame(t, raw):
+        k = t[0]
+        if k == "GreedyString":
+            return raw
+        if k == "CString":
+            return raw + bytes(unit)
+        if k == "PascalString":
+            return (bytes([len(raw)]) if t[1] == G.BYTE else R.leb128(len(raw))) + raw if len(raw) < 128 else None
+        if k == "PaddedString":
+            return raw + bytes(t[1] - len(raw)) if len(raw) <= t[1] else None
+        if k == "Struct":
+            return raw + bytes(unit) + b"\x07"
+        if k == "Array":
+            return bytes([len(raw)]) + raw + bytes([len(raw)]) + raw
+        if k == "FixedSized":
+            return raw + bytes(16 - len(raw)) if len(raw) <= 16 else None
+        if k == "NullTerminated":
+            return raw + bytes(unit)
+        if k == "Prefixed":
+            return bytes([len(raw)]) + raw
+    def value_for(t, s):
+        return {"Struct": {"s": s, "t": 7}, "Array": [s, s]}.get(t[0], s)
+    raws = list(RAW_TEXT[unit])
+    for s in TEXTS:
+        try:
+            raws.append(s.encode(enc))
+        except UnicodeError:
+            pass
+        for other in ("utf8", "utf_16_le", "utf_16_be", "utf_32_le", "latin1"):
+            try:
+                raws.append(s.encode(other))
+            except UnicodeError:
+                pass
+    raws = list(dict.fromkeys(raws))
+    return terms, frame, value_for, raws
+
+
+def run_text(enc, r):
+    """the four string macros under one encoding: every text of the text axis built (reference = the codec plus the framing rules),
+    unencodable texts refused, and every raw byte sequence of the list above (and the encoding of every text) parsed inside each
+    framing, reference and library agreeing on value / rejection"""
+    terms, frame, value_for, raws = text_space(enc)
+    for t in terms:
+        d = T.mk(t)
+        tsig = "text:" + T.sig_of(t)
+        for s in TEXTS + BAD_TEXTS:
+            r.states += 1
+            a, vs = cmp_build(t, d, value_for(t, s), {}, tsig)
+            r.case(nontrivial=a[0] == "ok" and not vs, outcome="text-build-" + a[0], validated=1)
+            for x in vs:
+                r.violation(x["sig"], x["case"], x["detail"])
+        for raw in raws:
+            data = frame(t, raw)
+            if data is None:
+                continue
+            r.states += 1
+            pa, vs = cmp_parse(t, d, data, {}, tsig)
+            r.case(nontrivial=bool(pa) and pa[0] == "ok" and not vs, outcome="text-parse-" + (pa[0] if pa else "refhang"), validated=1)
+            for x in vs:
+                r.violation(x["sig"], x["case"], x["detail"])
+    r.sample({"text_encoding": enc, "texts": len(TEXTS) + len(BAD_TEXTS), "raw_sequences": len(raws), "framings": len(terms)})
 
 
 def scale_cases(n):
